@@ -17,6 +17,7 @@ spec = {
   "golden":  {name: {"ok": bool, "text": str | None, "exc": str | None}} | None  (None: record full outputs),
   "golden_file": path of a json file with the golden table (alternative to "golden"),
   "count_prefix": false -> the prefix nodes are executed but not counted/compared (they belong to another task),
+  "count_min_len": n -> histories shorter than n are executed but not counted/compared (covered by another stratum),
   "prealloc": number of objects allocated (and kept alive) before importing cohdl / the design,
   "record":  bool  -> also return the complete outcome of every prefix compilation (golden/variant runs)
 }
@@ -214,6 +215,8 @@ def visit(spec, history, letter, stats, counted=True):
     """Perform the compilation `letter` in this process (state = after `history`) and check it."""
     out = compile_letter(spec, letter)
     golden = spec.get("golden")
+    if len(history) + 1 < int(spec.get("count_min_len") or 0):
+        counted = False  # shorter histories of this tree are counted by another stratum
     if counted:
         stats["nodes"] += 1
         stats["max_depth"] = max(stats["max_depth"], len(history) + 1)
